@@ -4,5 +4,6 @@ CONSTANTS
   MaxB = 5
   MaxH = 12
   MaxJ = 3
-INVARIANTS ChunkContent ChunkCount HintOK Coverage NthOK
+  MaxSet = 1
+INVARIANTS ChunkContent ChunkCount HintOK Coverage NthOK FieldsOK ConsumeOK
 CHECK_DEADLOCK FALSE
